@@ -230,6 +230,10 @@ def guard_set(b, S, block, drop_iter=True, _depth=0):
                 out.add("%s == %s" % (m.group(1), v))
         else:
             out.add(g)
+    if _depth == 0:
+        k = (fkey(b), tuple(sorted(out)))
+        if k not in FORMULAS:
+            FORMULAS[k] = reach_formula(b, S, block)
     return out
 
 
@@ -275,3 +279,121 @@ def error_variant(b, block, adt_suffixes=("A2lError", "ParserError", "TokenizerE
             break
         cur = ps[0]
     return "?"
+
+
+# ---------------------------------------------------------------------------------------------
+# reaching conditions as boolean formulas, compared for logical equivalence
+#
+# guard_set() gives the *set of predicates* an effect is control dependent on.  Two codings of the same decision - an if/else-if
+# chain and a match on a tuple, nested if-lets and a flattened `and_then`, a guard clause with early return - have different
+# predicate sets although the effect happens under exactly the same condition.  reach_formula() therefore also builds the
+# condition itself: RC(B) = OR over the control dependences (S, edge) of B of [ RC(S) AND label(S, edge) ], cut at blocks
+# already on the stack (loops).  Formulas are compared by truth table over the subjects they mention (equivalent()).
+
+FORMULAS = {}       # (function key, tuple(sorted atoms)) -> formula of the first block registered with these atoms
+
+
+def fkey(b):
+    return re.sub(r"\{closure#\d+\}", "{closure}", mir.strip_generics(b.id))
+
+
+def _atom(g):
+    """predicate string -> (subject, set of admitted values | None, negated?)  as a JSON-able list"""
+    m = re.fullmatch(r"!\((.*)\)", g)
+    if m:
+        return ["b", m.group(1), False]
+    m = re.fullmatch(r"(.*) not in \{(.*)\}", g)
+    if m:
+        return ["e", m.group(1), sorted(m.group(2).split(",")), False]
+    m = re.fullmatch(r"(.*?) (==|!=) ([^=<>!]+)", g)
+    if m and not re.search(r" (<|<=|>|>=) ", m.group(1)):
+        return ["e", m.group(1), sorted(m.group(3).split("|")), m.group(2) == "=="]
+    m = re.fullmatch(r"(.*) (<|<=|>|>=) (.*)", g)
+    if m:
+        a, op, c = m.groups()
+        if op == "<":
+            return ["b", "%s < %s" % (a, c), True]
+        if op == ">=":
+            return ["b", "%s < %s" % (a, c), False]
+        if op == ">":
+            return ["b", "%s < %s" % (c, a), True]
+        return ["b", "%s < %s" % (c, a), False]
+    return ["b", g, True]
+
+
+def reach_formula(b, S, block, stack=(), depth=0):
+    if block in stack or depth > 40:
+        return True
+    terms = []
+    for (sb, taken) in b.control_deps(block):
+        t = b.blocks[sb]["t"]
+        d = mir.op_place(t["d"])
+        lab = None
+        if t.get("dty") == "bool" and d is not None and not d["p"]:
+            src = resolve_copy(b, d["l"])
+            cd = const_bool_defs(b, src)
+            if cd is not None:
+                vals = [v for v, bb in t["ts"] if bb == taken]
+                is_other = taken == t["o"] and not vals
+                truth = (not is_other and vals == ["1"]) or (is_other and [v for v, _ in t["ts"]] == ["0"])
+                alts = [reach_formula(b, S, db, stack + (block, sb), depth + 1) for db in (cd[0] if truth else cd[1])]
+                # the flag was set where one of these blocks ran; the switch itself is reached under RC(sb)
+                lab = ["or"] + alts if len(alts) != 1 else alts[0]
+                terms.append(lab if lab is not True else True)
+                continue
+        g = switch_desc(b, S, sb, taken)
+        lab = _atom(g)
+        rc = reach_formula(b, S, sb, stack + (block,), depth + 1)
+        terms.append(lab if rc is True else ["and", rc, lab])
+    if not terms:
+        return True
+    if any(t is True for t in terms):
+        return True
+    return terms[0] if len(terms) == 1 else ["or"] + terms
+
+
+def _subjects(f, acc):
+    if f is True or f is False:
+        return
+    if f[0] in ("and", "or"):
+        for x in f[1:]:
+            _subjects(x, acc)
+    elif f[0] == "e":
+        acc.setdefault(("e", f[1]), set()).update(f[2])
+    elif f[0] == "b":
+        acc.setdefault(("b", f[1]), set())
+
+
+def _eval(f, env):
+    if f is True or f is False:
+        return f
+    if f[0] == "and":
+        return all(_eval(x, env) for x in f[1:])
+    if f[0] == "or":
+        return any(_eval(x, env) for x in f[1:])
+    if f[0] == "e":
+        v = env[("e", f[1])]
+        return (v in f[2]) == f[3]
+    return env[("b", f[1])] == f[2]
+
+
+def equivalent(f1, f2, limit=300000):
+    """logical equivalence of two reaching conditions; None when the truth table would be too large"""
+    import itertools
+    subs = {}
+    _subjects(f1, subs)
+    _subjects(f2, subs)
+    keys = sorted(subs)
+    doms = []
+    n = 1
+    for k in keys:
+        dom = sorted(subs[k]) + ["\0other"] if k[0] == "e" else [True, False]
+        doms.append(dom)
+        n *= len(dom)
+        if n > limit:
+            return None
+    for combo in itertools.product(*doms):
+        env = dict(zip(keys, combo))
+        if _eval(f1, env) != _eval(f2, env):
+            return False
+    return True
